@@ -102,6 +102,168 @@ Example C01_repeated_key_is_counted_twice :
                                          | _ => false end) outs) (snd r) = true.
 Proof. vm_compute. reflexivity. Qed.
 
+(* ================================================================ EXTENSION X4 (own block): where the sets "learned from chain" come from ==========
+   Model: model/EvmGuardianSet.v (fetchCurrentGuardianSet / fetchAndUpdateGuardianSet of node/pkg/ethereum/watcher.go, Run's
+   initial fetch and 15 s ticker, restarts of Run on the same Watcher value, `case p.gs = <-p.setC` of the processor); the index
+   comparison is read from the source on every run (gen/ExtractedEvmGs.v).  A fetch makes TWO eth_calls: the current index, then
+   the set of THAT index; [gans] = the two answers (the second as a function of the index asked); every history below is an
+   arbitrary list of ticker fetches, restarts, logs, heads, re-observations and poller ticks with arbitrary answers and errors.
+   node.go hands setC to the Ethereum AND to the BSC watcher: [source]s. *)
+From WH Require Import gen.ExtractedEvmGs model.EvmGuardianSet proofs.EvmGuardianSetProofs proofs.EvmGuardianSetProcProofs.
+
+(* every value ever sent on setChan is exactly the (keys, index) pair of ONE fetch: the index that fetch read, and the contract's
+   answer to getGuardianSet(that index) - never keys of one fetch under the index of another *)
+Theorem C01_set_sent_is_the_answer_pair_of_one_fetch : forall (K : Type) c (ops : list (gop K)) s ks i,
+  In (ks, i) (sent (snd (grun c s ops))) ->
+  exists a, In a (flat_map (@answers_of K) ops) /\ ga_idx a = Some i /\ ga_set a i = Some ks.
+Proof. intros K. exact sent_is_answer_pair. Qed.
+
+(* no set is sent twice in a row with the same index - across errors and restarts (w.currentGuardianSet lives in the Watcher value) *)
+Theorem C01_no_set_sent_twice_in_a_row : forall (K : Type) c (ops : list (gop K)) s l1 g1 g2 l2, g_chan c = true ->
+  sent (snd (grun c s ops)) = l1 ++ g1 :: g2 :: l2 -> snd g1 <> snd g2.
+Proof. intros K. exact sent_never_twice_in_a_row. Qed.
+
+(* a failing call: Run returns (the supervisor re-enters it), nothing is sent, nothing is forgotten *)
+Theorem C01_failed_fetch_sends_nothing : forall (K : Type) c s (o : gop K) a, fetch_like o a ->
+  (ga_idx a = None \/ exists i, ga_idx a = Some i /\ ga_set a i = None) ->
+  snd (gstep c s o) = [WDied] /\ w_cur (fst (gstep c s o)) = w_cur s /\ w_pending (fst (gstep c s o)) = w_pending s.
+Proof. intros K. exact fetch_step_error. Qed.
+
+(* liveness per tick: after a history ending in a fetch whose two calls succeed with index i, the processor - having received what
+   was sent, in order, interleaved with any other inputs - holds a set with index i whose keys are the contract's answer to
+   getGuardianSet(i) in one fetch of the history *)
+Theorem C01_error_free_fetch_reaches_the_processor :
+  forall recover keccak sign own gov_chain gov_addr c ops o a i ks pops,
+  g_chan c = true -> fetch_like o a -> ga_idx a = Some i -> ga_set a i = Some ks ->
+  setgs_of pops = map to_gset (sent (snd (grun c winit (ops ++ [o])))) ->
+  exists g, cur (fst (run recover keccak sign own gov_chain gov_addr init pops)) = Some g /\ gidx g = i /\
+            exists a', In a' (flat_map (@answers_of addr) (ops ++ [o])) /\ ga_idx a' = Some i /\ ga_set a' i = Some (keys g).
+Proof. exact fetch_reaches_processor. Qed.
+
+(* composition with the processor model: the [learned] list of the theorems above consists of contract answer pairs ... *)
+Theorem C01_learned_sets_are_contract_answers : forall sources pops,
+  delivered_from sources pops -> forall g, In g (learned [] pops) -> answer_pair sources g.
+Proof. exact learned_sets_are_contract_answers. Qed.
+
+(* ... hence, when the contract only ever returns pairwise distinct keys (<= 256): every stored VAA is a valid quorum VAA of a key
+   list the governance contract itself returned for the index that set carries - for every history of the watchers (answers,
+   errors, restarts) and of the processor *)
+Theorem C01_stored_vaas_verify_against_contract_answers :
+  forall recover keccak sign own gov_chain gov_addr sources pops,
+  answers_wf sources -> delivered_from sources pops ->
+  Forall (fun p => exists v g, snd p = marshal v /\ fst p = id_of v /\ qvalid recover keccak v (keys g) /\ answer_pair sources g)
+         (db (fst (run recover keccak sign own gov_chain gov_addr init pops))).
+Proof. exact stored_vaas_verify_against_contract_answers. Qed.
+
+(* the contract as Solidity makes it ([chain]: append-only sets, current index = last; the two calls of a fetch are separate, upgrades
+   [mid] may land between them).  For every schedule of upgrades, fetches, failing calls, restarts and everything else:
+   what is sent is (set i of the contract, i) - keys of set i labelled i, also when the index changes between the two calls (then
+   the PREVIOUS current set is published under its own index, and the next error-free fetch publishes the newer one) - with
+   strictly increasing i: a restart never resurrects an older set; and the remembered index never exceeds the contract's *)
+Theorem C01_sets_sent_are_contract_sets_under_their_own_index : forall (K : Type) c evs (ch : chain K) s,
+  g_chan c = true -> ch <> [] -> cur_le s ch ->
+  let r := crun c ch s evs in
+  (exists more, fst (fst r) = ch ++ more) /\
+  cur_le (snd (fst r)) (fst (fst r)) /\
+  incr_chain (w_cur s) (map snd (sent (snd r))) /\
+  Forall (fun g => 0 <= snd g <= chain_idx (fst (fst r)) /\ fst g = chain_set (fst (fst r)) (snd g)) (sent (snd r)).
+Proof. intros K. exact chain_run_spec. Qed.
+
+Theorem C01_restart_never_resurrects_an_older_set : forall (K : Type) c evs (ch : chain K) s,
+  g_chan c = true -> ch <> [] -> cur_le s ch ->
+  Sorted.StronglySorted Z.lt (map snd (sent (snd (crun c ch s evs)))).
+Proof. intros K. exact chain_sent_strictly_increasing. Qed.
+
+Theorem C01_learned_sets_are_contract_sets :
+  forall c evs (ch : chain addr) pops, g_chan c = true -> ch <> [] ->
+  (forall g, In (SetGS g) pops -> In (keys g, gidx g) (sent (snd (crun c ch winit evs)))) ->
+  forall g, In g (learned [] pops) ->
+  0 <= gidx g <= chain_idx (fst (fst (crun c ch winit evs))) /\ keys g = chain_set (fst (fst (crun c ch winit evs))) (gidx g).
+Proof. exact learned_sets_are_contract_sets. Qed.
+
+(* liveness against the contract: after any schedule that ends in a fetch (ticker or restart) whose two calls succeed with no upgrade
+   in between, the watcher remembers the contract's current index and the processor - once it has received what was sent - holds
+   exactly the contract's current set under its own index *)
+Theorem C01_error_free_fetch_delivers_the_current_contract_set : forall (K : Type) c evs (ch : chain K) last,
+  g_chan c = true -> ch <> [] ->
+  (last = CFetch [] false false \/ exists h0, last = CRestart [] false false h0) ->
+  let r := crun c ch winit (evs ++ [last]) in
+  w_cur (snd (fst r)) = Some (chain_idx (fst (fst r))) /\
+  last_set None (sent (snd r)) = Some (chain_set (fst (fst r)) (chain_idx (fst (fst r))), chain_idx (fst (fst r))).
+Proof. intros K. exact chain_fetch_delivers_current_set. Qed.
+
+Theorem C01_processor_holds_the_last_set_sent : forall recover keccak sign own gov_chain gov_addr pops (outs : list (list (wout addr))),
+  setgs_of pops = map to_gset (sent outs) ->
+  cur (fst (run recover keccak sign own gov_chain gov_addr init pops)) = option_map to_gset (last_set None (sent outs)).
+Proof. exact processor_holds_last_sent. Qed.
+
+(* ---------------------------------------------------------------- witnesses: what CAN happen (keys are integers here) *)
+Definition gx_c : gcfg := mkGCfg (EvmWatcher.mkCfg true 1 4) true.
+(* the contract is upgraded between the two calls of the first fetch: the watcher publishes the PREVIOUS current set [11; 12] under
+   ITS index 0 (consistent, one tick stale); the next fetch publishes ([11; 12; 13], 1) *)
+Example C01_upgrade_between_the_two_calls_publishes_the_previous_set :
+  sent (snd (crun gx_c [[11; 12]] winit [CRestart [[11; 12; 13]] false false 100; CFetch [] false false; CFetch [] false false])) =
+  [([11; 12], 0); ([11; 12; 13], 1)].
+Proof. vm_compute. reflexivity. Qed.
+
+(* errors on either call, then a restart whose initial fetch fails too, then success: one set, once *)
+Example C01_errors_and_restarts_send_each_set_once :
+  sent (snd (crun gx_c [[11; 12]] winit [CRestart [] true false 100; CRestart [] false true 100; CRestart [] false false 100;
+                                         CFetch [] false false; CFetch [] true false; CRestart [] false false 130; CUpgrade [21];
+                                         CFetch [] false true; CRestart [] false false 150; CFetch [] false false])) =
+  [([11; 12], 0); ([21], 1)].
+Proof. vm_compute. reflexivity. Qed.
+
+(* REFUTED without the contract's discipline (reported, not a violation of C01): the node behind the RPC endpoint answers the
+   index call from a state that knows set 1 and the set call from a state that does not yet (load-balanced backends, or a reorg
+   between the calls): getGuardianSet(1) = the empty set of an unset mapping slot.  The watcher publishes ([], 1), remembers index
+   1 and - the comparison is on the index alone - never corrects it: later error-free fetches answering (1, [21]) send nothing *)
+Example C01_inconsistent_node_leaves_an_empty_set_refuted :
+  let lag : gans Z := mkGAns (Some 1) (fun _ => Some []) in
+  let good : gans Z := mkGAns (Some 1) (fun i => if i =? 1 then Some [21] else Some [11; 12]) in
+  sent (snd (grun gx_c winit [GRestart (mkGAns (Some 0) (fun _ => Some [11; 12])) 100; GFetch lag; GFetch good; GRestart good 120; GFetch good])) =
+  [([11; 12], 0); ([], 1)].
+Proof. vm_compute. reflexivity. Qed.
+
+(* REFUTED without a monotone index: a node that answers from an older state makes the watcher publish the older set again (`==`, not
+   `<`); no restart is needed for that, and restarts do not cause it *)
+Example C01_index_regression_republishes_the_older_set_refuted :
+  let a0 : gans Z := mkGAns (Some 0) (fun _ => Some [11; 12]) in
+  let a1 : gans Z := mkGAns (Some 1) (fun _ => Some [21]) in
+  map snd (sent (snd (grun gx_c winit [GRestart a0 100; GFetch a1; GFetch a0; GFetch a1]))) = [0; 1; 0; 1].
+Proof. vm_compute. reflexivity. Qed.
+
+(* the hypotheses of the composition theorems are satisfiable: one watcher, two sets, the processor receives both *)
+Definition gx_k1 : addr := repeat x01 20.
+Definition gx_k2 : addr := repeat x02 20.
+Definition gx_a (i : Z) (ks : list addr) : gans addr := mkGAns (Some i) (fun j => if j =? i then Some ks else Some []).
+Definition gx_src : source := (gx_c, [GRestart (gx_a 0 [gx_k1]) 100; GFetch (gx_a 0 [gx_k1]); GFetch (mkGAns None (fun _ => None));
+                                     GRestart (gx_a 1 [gx_k1; gx_k2]) 120]).
+Definition gx_pops : list op := [SetGS {| keys := [gx_k1]; gidx := 0 |}; LocalMsg ex_msg; SetGS {| keys := [gx_k1; gx_k2]; gidx := 1 |}; Cleanup].
+Example C01_composition_hypotheses_hold :
+  source_sent gx_src = [([gx_k1], 0); ([gx_k1; gx_k2], 1)] /\
+  delivered_from [gx_src] gx_pops /\ answers_wf [gx_src] /\
+  setgs_of gx_pops = map to_gset (source_sent gx_src).
+Proof.
+  assert (E : source_sent gx_src = [([gx_k1], 0); ([gx_k1; gx_k2], 1)]) by (vm_compute; reflexivity).
+  repeat apply conj.
+  - exact E.
+  - intros g Hg. exists gx_src. split; [left; reflexivity|]. rewrite E.
+    cbn [gx_pops In] in Hg. destruct Hg as [Hg|[Hg|[Hg|[Hg|Hg]]]]; try discriminate Hg; try contradiction; inversion Hg; subst g; cbn [keys gidx].
+    + left. reflexivity.
+    + right. left. reflexivity.
+  - intros src a i ks [Hs|Hs] Ha Hk; [subst src|contradiction]. cbn [gx_src snd flat_map answers_of app In] in Ha.
+    assert (Hnd1 : NoDup [gx_k1]) by (constructor; [intros []|constructor]).
+    assert (Hnd2 : NoDup [gx_k1; gx_k2]).
+    { constructor; [|constructor; [intros []|constructor]]. intros [H|[]]. discriminate H. }
+    destruct Ha as [Ha|[Ha|[Ha|[Ha|Ha]]]]; try contradiction; subst a; cbn [ga_set gx_a] in Hk.
+    + destruct (i =? 0); inversion Hk; subst ks; split; try exact Hnd1; try constructor; cbn; lia.
+    + destruct (i =? 0); inversion Hk; subst ks; split; try exact Hnd1; try constructor; cbn; lia.
+    + discriminate Hk.
+    + destruct (i =? 1); inversion Hk; subst ks; split; try exact Hnd2; try constructor; cbn; lia.
+  - rewrite E. reflexivity.
+Qed.
+
 Print Assumptions C01_every_published_vaa_is_quorum_valid.
 Print Assumptions C01_store_holds_only_quorum_valid_vaas.
 Print Assumptions C01_quorum_valid_means_distinct_members.
@@ -109,3 +271,15 @@ Print Assumptions C01_quorum_valid_means_ascending_and_in_place.
 Print Assumptions C01_published_vaa_passes_VerifySignatures.
 Print Assumptions C01_published_vaa_passes_contract_quorum.
 Print Assumptions C01_peers_store_what_a_guardian_publishes.
+(* X4 block *)
+Print Assumptions C01_set_sent_is_the_answer_pair_of_one_fetch.
+Print Assumptions C01_no_set_sent_twice_in_a_row.
+Print Assumptions C01_failed_fetch_sends_nothing.
+Print Assumptions C01_error_free_fetch_reaches_the_processor.
+Print Assumptions C01_learned_sets_are_contract_answers.
+Print Assumptions C01_stored_vaas_verify_against_contract_answers.
+Print Assumptions C01_sets_sent_are_contract_sets_under_their_own_index.
+Print Assumptions C01_restart_never_resurrects_an_older_set.
+Print Assumptions C01_learned_sets_are_contract_sets.
+Print Assumptions C01_error_free_fetch_delivers_the_current_contract_set.
+Print Assumptions C01_processor_holds_the_last_set_sent.
